@@ -265,4 +265,40 @@ def pcRunSteps : PC → List Micro → Option PC
 /-- well-formed macro program (what the harness and the driver accept) -/
 def wfProg (p : List Macro) : Bool := (pcRunSteps .idle (expandProg p)).isSome
 
+/-! ## Vocabulary of the property statements -/
+
+/-- events that can occur while a handler object is fully constructed and not yet being destroyed:
+    signals, the stores of registrations, opaque solve/report steps -/
+def Body : Ev → Bool
+  | .sig _ => true
+  | .step (.setH _) => true
+  | .step (.setD _) => true
+  | .step .work => true
+  | _ => false
+
+/-- "installed", conservative reading: the constructor has completed, the destructor has not begun -/
+def PC.installed : PC → Bool
+  | .live _ => true
+  | .mid _ _ => true
+  | _ => false
+
+/-- between the two stores of `SetHandler` -/
+def PC.inWindow : PC → Bool
+  | .mid _ _ => true
+  | _ => false
+
+/-- the last completed registration of the current handler object that is still in force -/
+def PC.curReg : PC → Option (Nat × Nat)
+  | .live r => r
+  | .mid r _ => r
+  | .dI r => r
+  | .dS r => r
+  | _ => none
+
+/-- no handler object exists (never constructed, or destructor body done past `handler_ = 0`), or it is still
+    being constructed -/
+def PC.noCallbackExpected : PC → Bool
+  | .idle | .cA | .cI | .cP | .cZ | .cS1 | .cS2 | .dH | .dZ => true
+  | _ => false
+
 end MpVerif.C15
